@@ -351,6 +351,39 @@ pub fn check_c04_target(stream: &[u8], t: &C04Target) -> Result<(), Violation> {
             }
         }
     }
+    // "reused receive buffer": the intact frame is parsed, then damaged IN PLACE (same address,
+    // same length, same neighbours) and parsed again
+    let n = t.frame_len;
+    let mut scratch: Vec<u8> = stream[t.off..e].to_vec();
+    for b in &t.bits {
+        scratch[*b as usize / 8] ^= 0x80 >> (*b % 8); // undo the damage: the original frame
+    }
+    let first_ok = matches!(real_new(&scratch[..n]), Ok(Ok(_)));
+    for b in &t.bits {
+        scratch[*b as usize / 8] ^= 0x80 >> (*b % 8);
+    }
+    if first_ok {
+        match real_new(&scratch[..n]) {
+            Ok(Err(RtcmError::NotValid)) => {}
+            other => {
+                return Err(Violation::new(
+                    "C04",
+                    "C04.a",
+                    format!(
+                        "frame (len {}) parsed intact and then damaged in place by {} bits={:?} is not rejected as NotValid: {}",
+                        n,
+                        t.class,
+                        &t.bits[..t.bits.len().min(8)],
+                        match other {
+                            Ok(Ok(f)) => format!("ACCEPTED frame_len={}", f.frame_len()),
+                            Ok(Err(e)) => err_name(&e),
+                            Err(p) => format!("panic: {}", p),
+                        }
+                    ),
+                ))
+            }
+        }
+    }
     Ok(())
 }
 
